@@ -16,6 +16,7 @@ mod p_yaml;
 mod p_render;
 mod p_env;
 mod p_cfgcli;
+mod p_state;
 
 use std::io::{BufWriter, Write};
 
@@ -44,6 +45,7 @@ fn main() {
         "render" => p_render::main(&args[1..], &mut w),
         "envrun" => p_env::main(&args[1..], &mut w),
         "cfgcli" => p_cfgcli::main(&args[1..], &mut w),
+        "state" => p_state::main(&args[1..], &mut w),
         "consts" => p_consts::main(&args[1..], &mut w),
         x => { eprintln!("unknown subcommand {}", x); std::process::exit(2); }
     }
